@@ -145,7 +145,7 @@ def families(args):
     # body texts that look like comments to a careless scanner (`//` inside a string, a trailing line comment, a continuation),
     # recorded under strip_comments = true / false alike (function-like macros: text-level reference expander of C05)
     import c05
-    mprogs = [p for p in ppfamily.macro_programs(args.tier, args.seed) if p.label.split('/', 1)[1] in ('string-with-slashes', 'body-line-comment', 'continuation', 'args-defaults')]
+    mprogs = [p for p in ppfamily.macro_programs(args.tier, args.seed) if p.label.split('/')[1] in ('string-with-slashes', 'body-line-comment', 'continuation', 'args-defaults')]
     fam3 = ppprop.Family('returned-table/comment-like-bodies', mprogs, mk_case, ('table',), evalfn=c05.evalfn)
     return [fam, fam2, fam3]
 
